@@ -27,10 +27,12 @@ Definition sub16 (a b : N) : N := (a + two16 - b) mod two16.   (* a, b < 2^16 *)
                   not owned by another subscriber, limit, paired) and commitRestoredPBA stops on a restore error
      v_replace    ReverseIndex.Add replaces an existing entry for the same (address, start) instead of appending a
                   second one to byIP
-     v_dedup      ConfigurePool keeps only the first occurrence of an outside address *)
-Record variant := { v_validate : bool; v_replace : bool; v_dedup : bool }.
-Definition repaired : variant := {| v_validate := true; v_replace := true; v_dedup := true |}.
-Definition defective : variant := {| v_validate := false; v_replace := false; v_dedup := false |}.
+     v_dedup      ConfigurePool keeps only the first occurrence of an outside address
+     v_rollback   the failure branch of tryRestoreSyncedMapping's dataplane callback removes the subscriber's reverse
+                  entries before it releases the subscriber's blocks *)
+Record variant := { v_validate : bool; v_replace : bool; v_dedup : bool; v_rollback : bool }.
+Definition repaired : variant := {| v_validate := true; v_replace := true; v_dedup := true; v_rollback := true |}.
+Definition defective : variant := {| v_validate := false; v_replace := false; v_dedup := false; v_rollback := false |}.
 
 (* ---------------------------------------------------------------- configuration *)
 Inductive outside := OIp (ip : N) | OCidr (ip len : N).
@@ -414,14 +416,20 @@ Record comp := { cp_pool : pool; cp_rev : rindex; cp_sess : list N }.
 Definition sess_add (sid : N) (l : list N) : list N := if existsb (N.eqb sid) l then l else l ++ [sid].
 Definition sess_del (sid : N) (l : list N) : list N := filter (fun x => negb (x =? sid)) l.
 
+(* Every event carries the outcome of the southbound calls it makes (the fault pattern).  Outcomes that the code
+   ignores for its own pool / index state are still parameters, so that the theorems quantify over them. *)
 Inductive cop :=
 | CActivate (sid k : N) (dp_ok : bool) (obs : option block)
-    (* handleSessionActivate -> handlePBAActivate; dp_ok = outcome of the dataplane call *)
-| CSynced (sid k mk : N) (mb : block) (obs : option block)
-    (* same, with an HA-synced record (subscriber mk, block mb) waiting in opdb; dataplane call succeeds *)
-| CRelease (sid k : N)                       (* handleSessionRelease *)
-| CRestorePresent (sid mk : N) (mb : block)  (* restoreFromOpDB, session present, reprogram ok: commitRestoredPBA *)
-| CRestoreDegraded (mk : N) (mb : block).    (* restoreFromOpDB, session cache miss but access record retained *)
+    (* handleSessionActivate -> handlePBAActivate; dp_ok = outcome of the dataplane add *)
+| CSynced (sid k mk : N) (mb : block) (dp_ok : bool) (obs : option block)
+    (* same, with an HA-synced record (subscriber mk, block mb) waiting in opdb; dp_ok = outcome of the add *)
+| CRelease (sid k : N) (del_ok : list bool)
+    (* handleSessionRelease; del_ok = outcome of the dataplane delete of each mapping, whenever it completes *)
+| CRestorePresent (sid mk : N) (mb : block) (bulk : N)
+    (* restoreFromOpDB, session present; bulk = 0 reprogram ok (commitRestoredPBA), 1 per-mapping error,
+       2 transport error *)
+| CRestoreDegraded (mk : N) (mb : block)     (* restoreFromOpDB, session cache miss but access record retained *)
+| CComplete.                                 (* deferred dataplane delete callbacks fire (any order) *)
 
 Definition commit_mapping (v : variant) (s : comp) (p : pool) (sid k : N) (b : block) : comp :=
   {| cp_pool := p; cp_rev := rev_add v (cp_rev s) k b; cp_sess := sess_add sid (cp_sess s) |}.
@@ -442,13 +450,21 @@ Definition cstep (v : variant) (c : cfg) (s : comp) (o : cop) : comp * out :=
   match o with
   | CActivate sid k dp_ok obs =>
       if existsb (N.eqb sid) (cp_sess s) then (s, ROk) else pba_activate v c s sid k dp_ok obs
-  | CSynced sid k mk mb obs =>
+  | CSynced sid k mk mb dp_ok obs =>
       if existsb (N.eqb sid) (cp_sess s) then (s, ROk)
       else match restore v c (cp_pool s) mk mb true with
-           | Some p' => (commit_mapping v s p' sid mk mb, RBlock true mb)
-           | None => pba_activate v c s sid k true obs
+           | Some p' =>
+               if dp_ok then (commit_mapping v s p' sid mk mb, RBlock true mb)
+               else
+                 (* failure callback: ReleaseBlocks(mapping.InsideIP) *)
+                 ({| cp_pool := release c p' mk;
+                     cp_rev := if v_rollback v
+                               then fold_left (fun ri b => rev_remove ri (b_ip b) (b_start b)) (blocks_of p' mk) (cp_rev s)
+                               else cp_rev s;
+                     cp_sess := cp_sess s |}, RBlock true mb)
+           | None => pba_activate v c s sid k dp_ok obs
            end
-  | CRelease sid k =>
+  | CRelease sid k _ =>
       if negb (existsb (N.eqb sid) (cp_sess s)) then (s, ROk)
       else
         let bl := blocks_of (cp_pool s) k in
@@ -458,11 +474,13 @@ Definition cstep (v : variant) (c : cfg) (s : comp) (o : cop) : comp * out :=
                    cp_rev := fold_left (fun ri b => rev_remove ri (b_ip b) (b_start b)) bl (cp_rev s);
                    cp_sess := sess_del sid (cp_sess s) |}, ROk)
         end
-  | CRestorePresent sid mk mb =>
+  | CRestorePresent sid mk mb bulk =>
+      if negb (bulk =? 0) then (s, ROk)       (* nothing is committed locally; the entry is kept for a retry *)
+      else
       match restore v c (cp_pool s) mk mb true with
       | Some p' => (commit_mapping v s p' sid mk mb, ROk)
       | None =>
-          (* today: the error is only logged, the mapping is still indexed and the session recorded *)
+          (* before 285c7b2: the error is only logged, the mapping is still indexed and the session recorded *)
           if v_validate v then (s, RRestoreErr) else (commit_mapping v s (cp_pool s) sid mk mb, RRestoreErr)
       end
   | CRestoreDegraded mk mb =>
@@ -470,6 +488,7 @@ Definition cstep (v : variant) (c : cfg) (s : comp) (o : cop) : comp * out :=
       | Some p' => ({| cp_pool := p'; cp_rev := rev_add v (cp_rev s) mk mb; cp_sess := cp_sess s |}, ROk)
       | None => (s, RRestoreErr)
       end
+  | CComplete => (s, ROk)
   end.
 Definition crun (v : variant) (c : cfg) (s : comp) (ops : list cop) : comp :=
   fold_left (fun s o => fst (cstep v c s o)) ops s.
